@@ -77,7 +77,7 @@ func probes(thorough bool) []probe {
 		})
 	}
 	flipAt := map[string][]int{"repr": {0, 31}, "pad": {32, 32 + pad - 1}, "mark": {32 + pad, 32 + pad + 15}, "mac": {32 + pad + 16, 32 + pad + 31}}
-	if thorough {
+	{
 		flipAt = map[string][]int{}
 		for i := 0; i < 32; i++ {
 			flipAt["repr"] = append(flipAt["repr"], i)
@@ -336,11 +336,13 @@ func main() {
 							}
 							tr = runProbe(c, br, sf, blob, d, pre)
 							c.Count("probes", 1)
+							c.AddExecutions(1)
 							if tr.panics != "" {
 								fail(c, "no-panic", "panic", "probe %s: %s", p.name, tr.panics)
 								continue
 							}
 							c.Observe(p.name, tr.String())
+							c.Case(p.name, tr.String())
 							if tr.wrote != 0 {
 								fail(c, "silent", "wrote/"+class(p.name), "probe %s (%s): the server wrote %d bytes", p.name, d.name, tr.wrote)
 								continue
